@@ -463,6 +463,9 @@ func doInsid(c *core.Ctx, indexed bool, n *core.N, groups [][]string) {
 	var err error
 	p, msg := core.Safe(func() { err = t.InsertIdenticalTips(groups) })
 	oc := outcome(p, msg, err)
+	if oc == "err" { // the message tells the refusals apart (known finding F79: NewNodeIndex's duplicate name)
+		oc = "err:" + core.Escape(err.Error())
+	}
 	d, wf := "", ""
 	if !p {
 		d, wf = read(t)
@@ -693,6 +696,23 @@ func insidCases(c *core.Ctx) {
 		n = &core.N{Name: "rt", Kids: []*core.N{{Name: "t0", E: core.NewE()}}}
 		n.Kids[0].E.Len = []float64{0, -1, 1.5}[g.Intn(3)]
 		n.Kids[0].E.Id = 0
+	}
+	if g.Chance(0.03) { // two inner nodes with the same label (known finding F79)
+		var in []*core.N
+		var rec func(x *core.N)
+		rec = func(x *core.N) {
+			for _, k := range x.Kids {
+				if len(k.Kids) > 0 {
+					in = append(in, k)
+				}
+				rec(k)
+			}
+		}
+		rec(n)
+		if len(in) >= 2 {
+			in[0].Name, in[len(in)-1].Name = "DUP", "DUP"
+			in[0].E.Sup, in[len(in)-1].E.Sup = -1, -1
+		}
 	}
 	if g.Chance(0.06) { // a tip without a name ("" is also the code's "no existing tip yet")
 		x := n
